@@ -594,7 +594,39 @@ func check(b *sqlx.Builder, c *schema.Check) {
 		b.P("CONSTRAINT").Ident(c.Name)
 	}
 	// Expressions should be wrapped with parens.
-	b.P("CHECK", sqlx.MayWrap(strings.TrimSpace(c.Expr)))
+	expr := strings.TrimSpace(c.Expr)
+	if !wrapped(expr) {
+		expr = "(" + expr + ")"
+	}
+	b.P("CHECK", expr)
+}
+
+// wrapped reports if the expression is enclosed by a pair of matching parentheses. Unlike
+// sqlx.MayWrap, it does not consider a backslash an escape character in quoted strings.
+func wrapped(s string) bool {
+	if len(s) < 2 || s[0] != '(' {
+		return false
+	}
+	depth := 0
+	for i := 0; i < len(s); i++ {
+		switch c := s[i]; c {
+		case '(':
+			depth++
+		case ')':
+			if depth--; depth == 0 {
+				return i == len(s)-1
+			}
+		// String or identifier. A doubled quote closes
+		// the current string and opens the next one.
+		case '\'', '"', '`':
+			j := strings.IndexByte(s[i+1:], c)
+			if j == -1 {
+				return false
+			}
+			i += j + 1
+		}
+	}
+	return false
 }
 
 func autoincPK(pk *schema.Index) bool {
